@@ -8,17 +8,23 @@ PID = "C03"
 def prepare():
     import universe
     universe.build("quick")
+    universe.build_general("quick")
 
 
 def run(tier, seed, t0):
     nconf, stride = (6, 40) if tier == "quick" else (10, 4)
     v, cov, shapes = pc.run_pairs(PID, tier, seed, "con", nconf, stride)
+    v, gcov, _ = pc.run_pairs(PID, tier, seed, "con", nconf, stride, general=True, v=v)
+    cov["general_slopes"] = pc.general_cov(gcov)
+    cov["evaluations"] += gcov["evaluations"]
+    cov["distinct_nontrivial"] += gcov["distinct_nontrivial"]
+    cov["known_finding_hits"] = v.known_hits
     rc = v.finish()
     cov["rule"] = pc.UNIVERSE_RULE + "; C03 checks A.ContainsX(B), objA.Contains(objB), objB.Within(objA) and Feature wrappers against the exact answer; every deviating call is evaluated by the L2 transcription (Trace_Pairs) and accepted only as a listed known finding when the code agrees with the transcription of the pinned algorithm"
     cov["exhaustive"] = stride == 1
     cov["samples"] = [{"shape_A": shapes[1234]["s"], "shape_B": shapes[2500]["s"]}]
     vlib.write_evidence(PID, tier, seed, t0, cov, [vlib.A_FLOAT, vlib.TOOLS,
-                        "octilinear fragment on the 4x4 lattice (witness-grid semantics is exact there); general slopes only through C19's kernel checks"],
+                        "4x4 lattice: the octilinear fragment exhaustively (witness-grid semantics), other slopes as a structured sample (PlanarGeneral)"],
                         len(v.violations))
     return rc
 
